@@ -44,3 +44,62 @@ func Disjoint(a, b []byte) bool {
 	pa, pb := uintptr(unsafe.Pointer(unsafe.SliceData(a))), uintptr(unsafe.Pointer(unsafe.SliceData(b)))
 	return pa+uintptr(cap(a)) <= pb || pb+uintptr(cap(b)) <= pa
 }
+
+// ---------------------------------------------------------------------------------------------------------
+// Ghost trace. Calls that leave the verified code (an interface method of unknown implementation, a stubbed
+// dependency) are recorded in order. The verifier keeps the trace symbolically; when a counterexample is
+// replayed, recording stand-ins (RecWriter, ...) append to Trace so that the same clauses can be executed.
+
+// Event is one recorded call: Args[0] is the receiver, the remaining entries are the arguments (slices copied).
+type Event struct {
+	Name string
+	Args []interface{}
+	Rets []interface{}
+}
+
+// Trace is the trace of the current replay.
+var Trace []Event
+
+// TraceLen is the number of recorded calls.
+func TraceLen() int { return len(Trace) }
+
+// TraceIs reports whether event i exists and is a call of the method whose full name ends in name.
+func TraceIs(i int, name string) bool {
+	return i >= 0 && i < len(Trace) && len(Trace[i].Name) >= len(name) && Trace[i].Name[len(Trace[i].Name)-len(name):] == name
+}
+
+// TraceBytes returns argument k of event i, which must be a byte slice (nil if there is no such event).
+func TraceBytes(i, k int) []byte {
+	if i < 0 || i >= len(Trace) || k >= len(Trace[i].Args) {
+		return nil
+	}
+	b, _ := Trace[i].Args[k].([]byte)
+	return b
+}
+
+// TraceRetInt returns result k of event i as an int.
+func TraceRetInt(i, k int) int {
+	if i < 0 || i >= len(Trace) || k >= len(Trace[i].Rets) {
+		return 0
+	}
+	n, _ := Trace[i].Rets[k].(int)
+	return n
+}
+
+// TraceRetErr returns result k of event i as an error.
+func TraceRetErr(i, k int) error {
+	if i < 0 || i >= len(Trace) || k >= len(Trace[i].Rets) {
+		return nil
+	}
+	e, _ := Trace[i].Rets[k].(error)
+	return e
+}
+
+// RecWriter is an io.Writer that records every Write in Trace and accepts all bytes.
+type RecWriter struct{}
+
+// Write records the call.
+func (w *RecWriter) Write(p []byte) (int, error) {
+	Trace = append(Trace, Event{Name: "(io.Writer).Write", Args: []interface{}{w, append([]byte(nil), p...)}, Rets: []interface{}{len(p), error(nil)}})
+	return len(p), nil
+}
